@@ -27,6 +27,7 @@ func readerActs(pool [][]byte) []rdAct {
 		{"read1", func(z rdr, _ *rand.Rand) { z.Read(make([]byte, 1)) }},
 		{"read10", func(z rdr, _ *rand.Rand) { io.ReadFull(z, make([]byte, 10)) }},
 		{"readmid", func(z rdr, _ *rand.Rand) { io.ReadFull(z, make([]byte, 700)) }},
+		{"readmost", func(z rdr, _ *rand.Rand) { io.ReadFull(z, make([]byte, 110000)) }}, // well into a later block of a long stream
 		{"readall", func(z rdr, _ *rand.Rand) { io.Copy(ioutil.Discard, z) }},
 		{"close", func(z rdr, _ *rand.Rand) { z.Close() }},
 		{"readall+close", func(z rdr, _ *rand.Rand) { io.Copy(ioutil.Discard, z); z.Close() }},
@@ -76,6 +77,12 @@ func runC14(r *vhlib.Run) {
 			long = c.Valid(rng, 9000)
 		}
 		pool := [][]byte{short.Data, long.Data, gen.Mutate(rng, long.Data), long.Data[:len(long.Data)*2/3], nil, c.Valid(rng, 2000).Data}
+		// streams that fail very early: cut inside the first block/stream header
+		for _, k := range []int{2, 3, 5, 9} {
+			if k < len(long.Data) {
+				pool = append(pool, long.Data[:k])
+			}
+		}
 		// a stream that fills and wraps the 32 KiB window, and targets that refer
 		// to history the new stream does not have (must not see the old window)
 		switch c.Name {
@@ -85,6 +92,8 @@ func runC14(r *vhlib.Run) {
 				big = append(big, vhlib.RandBytes(rng, 5000)...)
 			}
 			pool = append(pool, gen.StdDeflate(rng, big, 6))
+			dyn := gen.StdDeflate(rng, []byte(brText(rng, 3000)), 9)
+			pool = append(pool, dyn, dyn[:2], dyn[:4], dyn[:7])
 			// fixed block: literal 'X', then length-3 matches at distances 4, 300 and 30000
 			for _, dsym := range []struct{ sym, extra, nb uint64 }{{3, 0, 0}, {16, 43, 7}, {29, 5423, 13}} {
 				var w gen.BitW
@@ -161,7 +170,8 @@ func runC14(r *vhlib.Run) {
 				// previous stream is followed by a trailer): Reset must switch to the new source
 				if len(hist) > 0 && (len(hist)+ti)%2 == 0 {
 					first := append(append([]byte{}, pool[hist[0]%len(pool)]...), vhlib.RandBytes(rng, 1+rng.Intn(40))...)
-					z := c.New(&vhlib.ReadOnly{B: first})
+					ro := &vhlib.ReadOnly{B: first}
+					z := c.New(ro)
 					var names []string
 					func() {
 						defer func() { recover() }()
@@ -173,7 +183,13 @@ func runC14(r *vhlib.Run) {
 							acts[a].Do(z, rng)
 						}
 					}()
-					z.Reset(&vhlib.ReadOnly{B: target})
+					if (len(hist)+ti)%4 == 0 {
+						// the SAME source object, re-pointed at the new data and rewound by the caller
+						ro.B, ro.Pos = target, 0
+						z.Reset(ro)
+					} else {
+						z.Reset(&vhlib.ReadOnly{B: target})
+					}
 					got := readFinal(z)
 					freshRO := readFinal(c.New(&vhlib.ReadOnly{B: target}))
 					r.Eval("reader-readonly-sources:"+c.Name, true, []byte(fmt.Sprint(c.Name, hist, ti)))
@@ -188,8 +204,8 @@ func runC14(r *vhlib.Run) {
 				}
 				if len(hist) == 0 {
 					for p := range pool {
-						if r.Quick() && p >= 4 && p < 6 {
-							continue
+						if r.Quick() && (p+ti)%3 != 0 {
+							continue // quick tier: a third of the (first stream, target) pairs
 						}
 						rec([]int{p}, d)
 					}
